@@ -817,6 +817,72 @@ func (f *flowFn) Check() *flowResult {
 		}
 		return true
 	}
+	// contentUnder: the content labels of v when the flags have the values of key: a phi edge that
+	// can only be taken against a flag's value does not contribute (a result selected by
+	// `if allKnown { result = … }` is the constant it started as when the flag is false)
+	var contentUnder func(v ssa.Value, key string, depth int) lbits
+	edgeInfeasible := func(p, b *ssa.BasicBlock, key string) bool {
+		stop := b.Idom()
+		for cur := p; cur != nil && cur != stop; cur = cur.Idom() {
+			idom := cur.Idom()
+			if idom == nil {
+				break
+			}
+			iff, ok := idom.Instrs[len(idom.Instrs)-1].(*ssa.If)
+			if !ok || len(cur.Preds) != 1 || idom.Succs[0] == idom.Succs[1] {
+				continue
+			}
+			cond := iff.Cond
+			neg := false
+			if u, ok := cond.(*ssa.UnOp); ok && u.Op == token.NOT {
+				neg = true
+				cond = u.X
+			}
+			j, ok := f.flags.index[cond]
+			if !ok || j >= len(key) {
+				continue
+			}
+			// the flag phi must be the same value at b (it dominates b and is not a loop phi of a loop inside)
+			if !cond.(*ssa.Phi).Block().Dominates(b) {
+				continue
+			}
+			want := (idom.Succs[0] == cur) != neg
+			if key[j] != '?' && key[j] != flagChar(want) {
+				return true
+			}
+		}
+		return false
+	}
+	contentUnder = func(v ssa.Value, key string, depth int) lbits {
+		if depth > 6 {
+			return f.C[v]
+		}
+		switch x := v.(type) {
+		case *ssa.Phi:
+			var out lbits
+			for i, e := range x.Edges {
+				if edgeInfeasible(x.Block().Preds[i], x.Block(), key) {
+					continue
+				}
+				out = out.or(contentUnder(e, key, depth+1))
+			}
+			return out
+		case *ssa.Call:
+			ci := calleeOf(&x.Call)
+			if ci.isCtyValueMethod("WithMarks", "WithSameMarks", "Mark", "RefineNotNull") && len(x.Call.Args) > 0 {
+				return contentUnder(x.Call.Args[0], key, depth+1)
+			}
+		}
+		return f.C[v]
+	}
+	constantResultUnder := func(r *ssa.Return, key string) bool {
+		for _, rv := range valueResults(r) {
+			if !contentUnder(rv, key, 0).zero() {
+				return false
+			}
+		}
+		return true
+	}
 	for _, s := range f.srcs {
 		srcRets, srcOuts, reach := f.sourceAnalysis(s)
 		if f.err != "" {
@@ -937,6 +1003,35 @@ func (f *flowFn) Check() *flowResult {
 				for r := range r0 {
 					if !r1[r] || !constantResult(r) {
 						same = false
+					}
+				}
+				if !same {
+					// the same, told apart by flag valuation: both sides reach the same returns under
+					// the same flag values, and under those values each result is content-free
+					type rk struct {
+						r   *ssa.Return
+						key string
+					}
+					keyed := func(m map[*ssa.Return][]retState) map[rk]bool {
+						out := map[rk]bool{}
+						for r, l := range m {
+							if isErr[r] {
+								continue
+							}
+							for _, rs := range l {
+								if !rs.st.err {
+									out[rk{r, rs.key}] = true
+								}
+							}
+						}
+						return out
+					}
+					k0, k1 := keyed(sides[0]), keyed(sides[1])
+					same = len(k0) == len(k1)
+					for x := range k0 {
+						if !k1[x] || !constantResultUnder(x.r, x.key) {
+							same = false
+						}
 					}
 				}
 				if debug {
